@@ -802,7 +802,7 @@ benign('B-helper-extracted-status-setter', ['C02', 'C05'], [
 # extraction, match <-> combinator, early returns, renames, reordered pure statements, added tracing).
 # Every property must stay silent on them, and defects seeded ON TOP of them must still be reported.
 ALLP = ['C%02d' % i for i in range(1, 18)]
-for _r in ('R1', 'R2', 'R3', 'R4', 'R5', 'R6', 'S1', 'S2', 'S3', 'S4', 'S5', 'S6', 'T3', 'T1', 'T2', 'G1'):
+for _r in ('R1', 'R2', 'R3', 'R4', 'R5', 'R6', 'S1', 'S2', 'S3', 'S4', 'S5', 'S6', 'T3', 'T1', 'T2', 'G1', 'U1', 'U2', 'U3'):
     benign(f'B-refactor-{_r}', ALLP, [], patch=f'sa/benign/{_r}.diff')
 
 IDB = 'src/incarnation_db.rs'
@@ -830,6 +830,15 @@ mutant_on('sa/benign/G1.diff', 'G1+weak-election', ['C14'], [
 mutant_on('sa/benign/G1.diff', 'G1+election-result-ignored', ['C14'], [
     ('src/scheduler/fallback.rs', "        let _lifecycle = self.begin_execution()?;\n", "        let _lifecycle = self.begin_execution();\n"),
 ], ['|O2|'])
+mutant_on('sa/benign/U1.diff', 'U1+suffix-sum-not-stored', ['C13'], [
+    ('src/delegated_safety/reserve.rs', "            *slot = suffix;\n", "            let _ = slot;\n"),
+], ['|H6|'])
+mutant_on('sa/benign/U2.diff', 'U2+stale-incarnation-overwrites-history-entry', ['C07'], [
+    ('src/beneficiary/history.rs', "        let is_newer = incarnation > state.incarnation;\n        if is_newer {", "        let is_newer = incarnation > state.incarnation;\n        if is_newer || incarnation == state.incarnation {"),
+], ['|B8|'])
+mutant_on('sa/benign/U3.diff', 'U3+nonce-overflow-case-commits', ['C03'], [
+    ('src/scheduler/ordered_commit.rs', "        Ok(!nonce_overflows && tx_env.nonce == committed_nonce)", "        let _ = nonce_overflows;\n        Ok(tx_env.nonce == committed_nonce)"),
+], ['|S2|'])
 mutant_on('sa/benign/R3.diff', 'R3+storage-gt-instead-of-ge', ['C08'], [
     (IDB, "(Some((slot_txid, value)), Some(reset_txid)) if slot_txid >= reset_txid => Ok(value),", "(Some((slot_txid, value)), Some(reset_txid)) if slot_txid > reset_txid => Ok(value),"),
 ], ['|D3|'])
